@@ -191,8 +191,9 @@ func (f *Filter) defaultGoMappingCallback(generatedLine, generatedColumn int, or
 func (f *Filter) defaultJSMappingCallback(isolated *sourcemap.Mapping) {
 	isolated.OriginalFile = f.normalizePath(isolated.OriginalFile)
 
-	// Adjust line and column numbers to account for existing offset.
-	if isolated.GeneratedLine == 0 {
+	// Adjust line and column numbers to account for existing offset. Generated lines are 1-based: the code on
+	// the first line of the chunk follows what has already been written on the current line.
+	if isolated.GeneratedLine == 1 {
 		isolated.GeneratedColumn += f.column
 	}
 	isolated.GeneratedLine += f.line
